@@ -198,8 +198,8 @@ def save_new_replay(cid, seed, src, tag):
 def run_fuzz(engine, target, seconds, work):
     """Native go fuzzing (thorough tier only). Returns (crasher path or None, info)."""
     cache = os.path.join(work, "fuzzcache")
-    cmd = ["go", "test", "-tags", "verif", "-vet=off", "-run", "^$", "-fuzz", "^%s$" % target,
-           "-fuzztime", "%ds" % seconds, "-test.fuzzcachedir", cache, "./engines/" + engine]
+    cmd = ["go", "test", "-tags", "verif", "-vet=off", "./engines/" + engine, "-run", "^$", "-fuzz", "^%s$" % target,
+           "-fuzztime", "%ds" % seconds, "-test.fuzzcachedir=" + cache]
     log = os.path.join(work, "fuzz-%s.log" % target)
     before = set(glob.glob(os.path.join(HARNESS, "engines", engine, "testdata", "fuzz", target, "*")))
     rc = run_proc(cmd, env_with(), HARNESS, seconds * 4 + 600, log)
